@@ -12,6 +12,8 @@ import (
 
 func init() {
 	vHarnesses["H_C05_text"] = H_C05_text
+	vHarnesses["H_C05_builtins"] = H_C05_builtins
+	vHarnesses["H_C05_builtinsQ"] = H_C05_builtinsQ
 }
 
 type c05Tmpl struct {
@@ -73,4 +75,16 @@ func H_C05_text(inst int) {
 	verify(!panicked, "a Go panic escaped Exec")
 	verify(!isPanicResidue(eerr), "Exec returned the residue of a recovered Go panic")
 	reach("c05/text", true)
+}
+
+// H_C05_builtins: predicate number inst of the table registered by New() (bootstrap included) x argument shapes.
+func H_C05_builtins(inst int) {
+	i := newFull()
+	engine.VH_C05_builtins(&i.VM, inst, false)
+}
+
+// H_C05_builtinsQ: the same with the 8-shape menu (quick tier).
+func H_C05_builtinsQ(inst int) {
+	i := newFull()
+	engine.VH_C05_builtins(&i.VM, inst, true)
 }
